@@ -74,6 +74,12 @@ def h_step(ctx, sub, nlist, twin=False):
     pre, plist = sym_status(ctx, nlist)
     v.verif_dict[rid] = pre
     p_all, p_acc, p_sta, p_step, p_list, p_comp = snap(pre)
+    # a telecommand that is already tracked is refused in every state of its entry (finished or not), and the entry stays
+    e, dup = call(v.add_tc, mk_tc())
+    ctx.holds("duplicate telecommand refused whatever the state of its entry", e is None and dup == False, exc_name(e))  # noqa: E712
+    ctx.holds("refused duplicate leaves the entry in place", v.verif_dict.get(rid) is pre and len(v.verif_dict) == 1 and sym_and(
+        pre.all_verifs_recvd == p_all, pre.accepted == p_acc, pre.started == p_sta, pre.step == p_step, pre.completed == p_comp,
+        list_eq(list(pre.step_list), p_list)))
     tm, stepval = mk_report(ctx, sub, tc)
     res = v.add_tm(tm)
     ctx.holds("known request id yields a result", isinstance(res, TmCheckResult))
@@ -193,6 +199,8 @@ def h_after_cleanup(ctx, sub_first, sub_after):
         v.add_tm(mk_report(ctx, s, tc, "pre%d" % s)[0])
     res = v.add_tm(mk_report(ctx, sub_first, tc, "fin")[0])
     ctx.holds("completion report finishes the sequence", res is not None and res.status.all_verifs_recvd == True)  # noqa: E712
+    ctx.holds("a finished telecommand that was not removed yet is still refused as a duplicate",
+              v.add_tc(mk_tc()) == False and v.verif_dict[rid] is res.status and res.status.all_verifs_recvd == True)  # noqa: E712
     v.remove_completed_entries()
     ctx.holds("finished entry removed, the other kept", rid not in v.verif_dict and RequestId.from_pus_tc(other) in v.verif_dict
               and len(v.verif_dict) == 1)
